@@ -4,7 +4,8 @@
 
 JOB = {"repo": path of the hy checkout, "hypyc": private bytecode directory for hy itself, "out": result file,
        "tasks": [ {"kind": "import", "root": sys.path entry, "modules": [names, in import order], "probe": int},
-                  {"kind": "runpath", "files": [[path, how]], ...} ]}
+                  {"kind": "runmod", "root": ..., "modules": [...]}   (runpy.run_module(name, run_name="__main__", alter_sys=True)),
+                  {"kind": "files", "files": [[path, how]]}           (single files through a loader or runhy.run_path) ]}
 
 hy itself is imported with sys.pycache_prefix pointing at the private directory (so that nothing is written into the
 checkout); then the prefix is removed again, so that the generated modules are compiled and cached the ordinary way, in
@@ -171,8 +172,6 @@ def main():
                 saved_argv0 = sys.argv[0]
                 try:
                     g = runpy.run_module(name, run_name="__main__", alter_sys=True)
-                    m = types.ModuleType("__main__")
-                    m.__dict__.update(g)
                     mods[name] = {"values": {k: snap(v) for k, v in sorted(g.items()) if not k.startswith("_") and k != "hy"},
                                   "macros": sorted(g.get("_hy_macros", {})),
                                   "readers": sorted(g.get("_hy_reader_macros", {}) or {})}
